@@ -107,6 +107,17 @@ func unwrap(v interface{}) interface{} {
 // PrepareQuery checks that the given selectionSet matches the schema typ, and
 // parses the args in selectionSet
 func PrepareQuery(ctx context.Context, typ Type, selectionSet *SelectionSet) error {
+	// Selections that the executor would merge must agree at every level, not
+	// only at the top (which Parse checks); otherwise execution goes wrong.
+	if selectionSet != nil {
+		if err := detectMergeConflicts(selectionSet); err != nil {
+			return err
+		}
+	}
+	return prepareQuery(ctx, typ, selectionSet)
+}
+
+func prepareQuery(ctx context.Context, typ Type, selectionSet *SelectionSet) error {
 	switch typ := typ.(type) {
 	case *Scalar:
 		if selectionSet != nil {
@@ -128,7 +139,7 @@ func PrepareQuery(ctx context.Context, typ Type, selectionSet *SelectionSet) err
 				if fragment.On != typString {
 					continue
 				}
-				if err := PrepareQuery(ctx, graphqlTyp, fragment.SelectionSet); err != nil {
+				if err := prepareQuery(ctx, graphqlTyp, fragment.SelectionSet); err != nil {
 					return err
 				}
 			}
@@ -182,22 +193,22 @@ func PrepareQuery(ctx context.Context, typ Type, selectionSet *SelectionSet) err
 
 			selection.ParentType = typ.Name
 
-			if err := PrepareQuery(ctx, field.Type, selection.SelectionSet); err != nil {
+			if err := prepareQuery(ctx, field.Type, selection.SelectionSet); err != nil {
 				return err
 			}
 		}
 		for _, fragment := range selectionSet.Fragments {
-			if err := PrepareQuery(ctx, typ, fragment.SelectionSet); err != nil {
+			if err := prepareQuery(ctx, typ, fragment.SelectionSet); err != nil {
 				return err
 			}
 		}
 		return nil
 
 	case *List:
-		return PrepareQuery(ctx, typ.Type, selectionSet)
+		return prepareQuery(ctx, typ.Type, selectionSet)
 
 	case *NonNull:
-		return PrepareQuery(ctx, typ.Type, selectionSet)
+		return prepareQuery(ctx, typ.Type, selectionSet)
 
 	default:
 		panic("unknown type kind")
